@@ -15,6 +15,15 @@ static void cmpo(const char *key, const uint8_t *got, const uint8_t *exp, size_t
     if (!hx_buf_ok(got, n)) hx_fail(key, "wrote outside the output buffer: %s %zu/%zu/%zu/%zu", what, a, b, c, d);
 }
 
+/* the same for a result that lies inside a larger harness buffer */
+static void cmpi(const char *key, const uint8_t *buf, size_t buflen, size_t off, const uint8_t *exp, size_t n, const uint8_t *rest, const char *what, size_t a, size_t b, size_t c)
+{
+    hx_stat("evaluations", 1);
+    if (memcmp(buf + off, exp, n)) hx_fail(key, "differs from reference: %s %zu/%zu/%zu pat=%d", what, a, b, c, pat);
+    for (size_t i = 0; i < buflen; i++) if ((i < off || i >= off + n) && buf[i] != rest[i]) { hx_fail(key, "changed byte %zu outside the %zu-byte result at offset %zu: %s %zu/%zu/%zu", i, n, off, what, a, b, c); break; }
+    if (!hx_buf_ok(buf, buflen)) hx_fail(key, "wrote outside the buffer: %s %zu/%zu/%zu", what, a, b, c);
+}
+
 static void prf(void)
 {
     uint8_t key[16], *msg = malloc(70000), *exp = malloc(70000);
@@ -155,6 +164,19 @@ static void hmac(void)
             ref_hmac(A, key, kl, msg, ml, e);
             if (A) ascon_hmaca(o, HX_OPT(key, kl), kl, HX_OPT(msg, ml), ml); else ascon_hmac(o, HX_OPT(key, kl), kl, HX_OPT(msg, ml), ml);
             cmpo(A ? "hmaca:oneshot" : "hmac:oneshot", o, e, 32, "keylen/msglen", kl, ml, 0, 0);
+            /* the output written over the inputs (in-place ratchet k = HMAC(k, label); tag written over the message): the inputs are what the buffers hold when the call is made.
+             * The interface has no restrict qualifiers and the code keeps the inner digest in a local buffer, so these calls are well defined on this tree. */
+            if (ml <= 20 && kl >= 1 && kl <= 200) {
+                uint8_t *kb = hx_buf(kl + 64); size_t offs[3] = {0, kl - 1, kl / 2};
+                for (int oi = 0; oi < 3; oi++) {
+                    uint8_t rest[264]; memcpy(kb, key, kl); memset(kb + kl, 0xAA, 64); memcpy(rest, kb, kl + 64);
+                    if (A) ascon_hmaca(kb + offs[oi], kb, kl, HX_OPT(msg, ml), ml); else ascon_hmac(kb + offs[oi], kb, kl, HX_OPT(msg, ml), ml);
+                    cmpi(A ? "hmaca:oneshot-output-over-key" : "hmac:oneshot-output-over-key", kb, kl + 64, offs[oi], e, 32, rest, "keylen/msglen/offset", kl, ml, offs[oi]);
+                }
+                hx_free(kb);
+                if (ml >= 1) { uint8_t *mb = hx_buf(ml + 40), rest[64]; memcpy(mb, msg, ml); memset(mb + ml, 0xAA, 40); memcpy(rest, mb, ml + 40); if (A) ascon_hmaca(mb, HX_OPT(key, kl), kl, mb, ml); else ascon_hmac(mb, HX_OPT(key, kl), kl, mb, ml);
+                    cmpi(A ? "hmaca:oneshot-output-over-message" : "hmac:oneshot-output-over-message", mb, ml + 40, 0, e, 32, rest, "keylen/msglen", kl, ml, 0); hx_free(mb); }
+            }
             memset(o, 0xAA, 32);
             if (A) { ascon_hmaca_state_t s; ascon_hmaca_init(&s, key, kl); ascon_hmaca_update(&s, msg, ml); ascon_hmaca_finalize(&s, key, kl, o); ascon_hmaca_free(&s); }
             else { ascon_hmac_state_t s; ascon_hmac_init(&s, key, kl); ascon_hmac_update(&s, msg, ml); ascon_hmac_finalize(&s, key, kl, o); ascon_hmac_free(&s); }
